@@ -4,8 +4,8 @@
 // UnsupportedMediaTypeError) over generated Accept values x designed content types x
 // pre-set Content-Type headers x values. It writes what it observed, together with the
 // answers of the real mime.ParseMediaType on every string those functions consult, as Coq
-// terms (cases_*.txt + strings.txt, compared with the Encoding model inside Coq) and
-// evaluates the property's own laws directly on the Go results (result.json).
+// terms (shard_NNN.hdr/.txt: self-contained inputs for the Encoding model, cases.jsonl: the
+// same cases readable) and evaluates the property's own laws directly on the Go results (result.json).
 package main
 
 import (
@@ -901,8 +901,8 @@ func writeShard(dir string, k int, cases []mcase, idxs []int, global *interner) 
 		vt.WriteString(vh.CoqBytes(w))
 	}
 	hdr := "From Encoding Require Import Model Run.\nOpen Scope N_scope.\n" +
-		"Definition voc : table := Eval vm_compute in mk_table [\n" + vt.String() + "].\n" +
-		"Definition tbl : table := Eval vm_compute in mk_strings voc [\n" + st.String() + "]."
+		"Definition voc : table := mk_table [\n" + vt.String() + "].\n" +
+		"Definition tbl : table := mk_strings voc [\n" + st.String() + "]."
 	if err := os.WriteFile(filepath.Join(dir, fmt.Sprintf("shard_%03d.hdr", k)), []byte(hdr), 0o644); err != nil {
 		return err
 	}
@@ -939,7 +939,7 @@ func main() {
 
 	nResp, nReq, capModel := 26000, 4000, 40000
 	if *tier == "thorough" {
-		nResp, nReq, capModel = 940000, 60000, 150000
+		nResp, nReq, capModel = 940000, 60000, 100000
 	}
 	if *maxModel > 0 {
 		capModel = *maxModel
@@ -1227,17 +1227,38 @@ func main() {
 			panic(err)
 		}
 	}
-	// ---- shards: case i goes to shard i mod n; every shard carries its own strings
+	// ---- shards: every shard carries its own vocabulary and strings
 	nshards := (len(mcases) + *shardSize - 1) / *shardSize
 	if nshards < 1 {
 		nshards = 1
 	}
+	// cases that share strings go to the same shard (smaller per-shard string tables)
+	order := make([]int, len(mcases))
+	for i := range order {
+		order[i] = i
+	}
+	sort.SliceStable(order, func(x, y int) bool {
+		a, b := mcases[order[x]], mcases[order[y]]
+		if a.kind != b.kind {
+			return a.kind < b.kind
+		}
+		if a.a != b.a {
+			return a.a < b.a
+		}
+		if a.hdr != b.hdr {
+			return a.hdr < b.hdr
+		}
+		if a.c != b.c {
+			return a.c < b.c
+		}
+		return a.p < b.p
+	})
 	for k := 0; k < nshards; k++ {
 		var cs []mcase
 		var idxs []int
-		for i := k; i < len(mcases); i += nshards {
-			cs = append(cs, mcases[i])
-			idxs = append(idxs, i)
+		for j := k * *shardSize; j < (k+1)**shardSize && j < len(order); j++ {
+			cs = append(cs, mcases[order[j]])
+			idxs = append(idxs, order[j])
 		}
 		must(writeShard(*out, k, cs, idxs, in))
 	}
